@@ -2,11 +2,14 @@
 import json, random
 import lib, parser_common as pc
 
-def chunkings(stream, rng, tier):
+def chunkings(stream, rng, tier, every=True):
     n = len(stream)
     out = [[stream]]                                            # all at once
     out.append([stream[i:i + 1] for i in range(n)])             # byte at a time (the reference, index 1)
-    for k in range(1, n):                                       # every single split point
+    ks = list(range(1, n))                                      # every single split point
+    if not every and len(ks) > 10:
+        ks = sorted(rng.sample(ks, 10))                         # quick tier, plain streams: ten of them
+    for k in ks:
         out.append([stream[:k], stream[k:]])
     for _ in range(3 if tier == 'quick' else 12):               # random multi-way splits
         m = rng.randint(2, min(5, max(2, n - 1)))
@@ -33,10 +36,11 @@ def run(pid, tier):
     rep = lib.Report('C08', tier)
     rep.cov['rule'] = ('cases = (stream, chunking): streams of 1..2 messages (1..2 units each) over a 19-unit vocabulary (blocks and quoted strings holding terminators and semicolons, '
                        'relative headers, empty units, junk, undefined headers, unfinished block results) with LF / CRLF / CR terminators, plus truncated streams completed by a zero-length call; '
-                       'chunkings: all at once, byte at a time, every single split point, random multi-way splits; each execution is validated by TLC against ScpiParser and its observables '
+                       'chunkings: all at once, byte at a time, every single split point (quick tier: for every stream with a string, block or expression and every second plain stream, ten split points for the others), random multi-way splits; each execution is validated by TLC against ScpiParser and its observables '
                        'compared with the byte-at-a-time execution; non-trivial = a cut falls inside a token')
     rep.assumptions += ['input buffer (64 bytes, and for a sixth of the streams exactly the stream length + 1) holds any pending unterminated data of these streams (the stated precondition)',
                         'a CR LF pair cut between CR and LF yields an extra empty message, which is unobservable']
+    mcfut = pc.start_mc_inputloop()
     rng = random.Random(lib.seed())
     streams = pc.gen(rep, 'C08', {}, nparts=8, lemmas=('Lemmas', 'L_Progress', 'L_Chunk'), timeout=1500)
     rep.cov['streams_enumerated_by_tlc'] = len(streams)
@@ -61,7 +65,8 @@ def run(pid, tier):
             bufs = [s['buf']] + ([len(stream) + 1] if (len(scen) // 7) % 6 == 0 and len(stream) + 1 < s['buf'] else [])
             for bsz in bufs:
                 base = len(scen)
-                for ch in chunkings(stream, rng, tier):
+                plain = tier == 'quick' and not any(b in (34, 35, 39, 40, 92) or b >= 128 for b in stream)
+                for ch in chunkings(stream, rng, tier, every=not plain or (len(scen) // 3) % 2 == 0):
                     sc = dict(s)
                     sc['buf'] = bsz
                     sc['chunks'] = ch + ([[]] if flush else [])
@@ -71,7 +76,7 @@ def run(pid, tier):
     obs = pc.execute(rep, scen, 'default', 'C08')
     refs = [obs[j] for j in refidx]
     pc.validate(rep, 'C08', scen, obs, 'C08-default', refs=refs, kindfn=kind, fields=pc.FIELDS['C08'])
-    pc.event_traces(rep, 'C08', scen[::max(1, len(scen) // (12000 if tier == 'quick' else 100000))], 'C08')     # hook-event traces against the input-loop state machine
+    pc.event_traces(rep, 'C08', scen[::max(1, len(scen) // (12000 if tier == 'quick' else 100000))], 'C08', mc=mcfut)     # hook-event traces against the input-loop state machine
     nt = [i for i, (st, ch) in enumerate(meta) if cuts_token(st, ch)]
     rep.cov['distinct_nontrivial'] = len(set(json.dumps(scen[i]['chunks']) for i in nt))
     rep.cov['streams'] = len(streams)
